@@ -38,7 +38,6 @@ def plan(tier, seed):
             "the URI a 'prefix:local' string denotes is taken from the container's own registered namespaces (public .namespaces, "
             "for bundles also the document's unshadowed ones); bare names from the effective default namespace",
             "look-ups with QualifiedName objects may register namespaces (that is the real API); they are part of the history",
-            "full-URI strings are built so that no registered namespace URI occurs twice in them",
         ],
     }
 
@@ -101,6 +100,20 @@ def explicit_lookups(ctx, c, r, where, problems, n_present=3, n_absent=2):
             u = view[p] + "absent%d" % r.randint(0, 9)
             if u not in by:
                 targets.append((u, []))
+    # an absent identifier whose full URI contains a registered namespace twice must not be taken for the present record
+    # that is left when the namespace is stripped everywhere (regression guard for the URI-compaction repair)
+    for uri in uris[:2]:
+        for p, u in view.items():
+            if uri.startswith(u) and (u + uri) not in by:
+                ctx.count("lookup.uri_doubled_namespace.absent")
+                try:
+                    got = c.get_record(u + uri)
+                except Exception as e:
+                    problems.append("%s: get_record(%r) raised %s" % (where, u + uri, type(e).__name__))
+                    break
+                if got:
+                    problems.append("%s: get_record(full URI %r) returned %d records of <%s>" % (where, u + uri, len(got), got[0].identifier.uri))
+                break
     for uri, want in targets:
         spellings = []
         if want:
@@ -119,9 +132,7 @@ def explicit_lookups(ctx, c, r, where, problems, n_present=3, n_absent=2):
                     spellings.append(("qn_absent", Namespace(p, u)[uri[len(u):]]))
                     spellings.append(("printed_absent", "%s:%s" % (p, uri[len(u):])))
                     break
-        # full URI: only when no registered namespace URI occurs twice in it (documented generator boundary)
-        if not any(uri.count(u) > 1 for u in view.values()):
-            spellings.append(("uri", uri))
+        spellings.append(("uri", uri))
         for name, x in spellings:
             ctx.count("lookup.%s.%s" % (name, "present" if want else "absent"))
             try:
